@@ -140,9 +140,10 @@ func VerifDelayRun(gaps []time.Duration) []time.Duration {
 	defer p.startupDelayTimer.Stop()
 	out := make([]time.Duration, 0, len(gaps))
 	for i, g := range gaps {
-		if i > 0 {
-			last := time.Now().Add(-g)
-			p.lastProtoError = &last
+		if i > 0 && p.lastProtoError != nil {
+			// g passes: age whatever timestamp the peer has stored (not overwrite it)
+			aged := p.lastProtoError.Add(-g)
+			p.lastProtoError = &aged
 		}
 		p.updateStartupDelay()
 		out = append(out, p.startupDelay)
